@@ -62,6 +62,8 @@ def strategy(tier):
       (1, st.just(['reopen'])),
       # a request whose deadline fires while its frame sits in a blocked socket write, then the write completes
       (1, st.just(['timeout_in_write'])),
+      # re-open with 1-3 callers parked inside the transport during the connect, all timing out before it completes
+      (1, st.tuples(st.just('reopen_expired'), st.integers(1, 3)).map(list)),
   ]
   transport = st.fixed_dictionaries({
       'kind': st.just('transport'),
@@ -117,6 +119,7 @@ class Run(object):
     self.gen = 0
     self.failure = None
     self.held = None          # Event while the send loop is held
+    self.early_expired = 0    # callers to park (and time out) inside the transport during the next open
     self.blocked = None       # request whose frame is blocked inside sendall
     self.step = -1
     self.cur_op = None
@@ -153,7 +156,7 @@ class Run(object):
         orig(sock, frame)
         self.on_kafka_frame(sock, self.peer.requests[-1])
       self.peer.on_frame = on_frame
-    Server(self.net, ('127.0.0.1', PORT), self.peer)
+    self.server = Server(self.net, ('127.0.0.1', PORT), self.peer)
     self.provider, self.props = ser, props
     self.net.gate = self.gate
     self.open()
@@ -166,7 +169,28 @@ class Run(object):
     # a transport is opened once; a re-open is a fresh transport from the provider (as the resurrector does)
     self.sink = self.provider.CreateSink(self.props)
     self.transport = self.sink.next_sink
+    early = self.early_expired
+    self.early_expired = 0
+    if early:
+      self.server.default_connect = ['accept', 0.005]
     ar = self.sink.Open()
+    if early:
+      # callers hand requests (with deadlines) to the transport while it is still connecting; their deadlines pass
+      # before the connection is up: none of them is ever written, so none of them may keep a tag
+      parked = []
+      for _ in range(early):
+        parked.append(self.request(True, parked_during_open=True))
+      settle()
+      advance(0.001)
+      for r in parked:
+        if r is not None and not r.completions:
+          r.timed_out = True
+          r.dropped_expected = True
+          self.flags.add('timeout_while_waiting_for_open')
+          r.evt.Set(True)
+          r.stack.AsyncProcessResponseMessage(MethodReturnMessage(error=TimeoutError()))
+      self.server.default_connect = ['accept', 0.001]
+      self.peak = max(self.peak, early)      # when the connection comes up they all hold a tag for a moment
     advance(0.02)
     if not ar.ready() or ar.exception or self.transport.state != ChannelState.Open:
       self.fail('open-failed', 'transport did not open')
@@ -250,8 +274,8 @@ class Run(object):
       pass
 
   # --- ops
-  def request(self, deadline):
-    if self.transport.state != ChannelState.Open:
+  def request(self, deadline, parked_during_open=False):
+    if self.transport.state != ChannelState.Open and not parked_during_open:
       return
     r = Req(len(self.reqs))
     r.conn = self.gen
@@ -270,6 +294,13 @@ class Run(object):
     st_.Push(Terminal(), r)
     r.stack = st_
     r.msg = msg
+    if parked_during_open:
+      # the caller's own greenlet: it waits inside the transport until the connection is up
+      def go():
+        self.sink.AsyncProcessRequest(st_, msg, None, {})
+        r.tag = msg.properties.get(Tag.KEY)
+      gevent.spawn(go)
+      return r
     try:
       self.sink.AsyncProcessRequest(st_, msg, None, {})
     except Exception as e:
@@ -439,6 +470,9 @@ def _exec_transport(plan):
     elif k == 'release':
       run.release()
     elif k == 'reopen':
+      run.reopen()
+    elif k == 'reopen_expired':
+      run.early_expired = op[1]
       run.reopen()
     elif k == 'timeout_in_write':
       if run.held is None:
